@@ -46,7 +46,9 @@ type attemptSpec struct {
 	T       toutSpec   `json:"t"`
 	Cli     []mwSpec   `json:"cli"`
 	Req     []mwSpec   `json:"req"`
-	Cond    bool       `json:"cond,omitempty"`
+	Conds       []bool `json:"conds,omitempty"`        // verdict of each registered retry condition after this attempt
+	Ctx         string `json:"ctx,omitempty"`          // transport: the stub cancels the request context and returns its error | after: cancels it and answers normally
+	SleepCancel bool   `json:"sleep_cancel,omitempty"` // the context is cancelled while do() waits for the next attempt
 }
 
 type progSpec struct {
@@ -58,7 +60,10 @@ type progSpec struct {
 	OnError  bool          `json:"on_error,omitempty"`
 	Retry    bool          `json:"retry,omitempty"`
 	Max      int           `json:"max,omitempty"`
-	Conds    bool          `json:"conds,omitempty"`
+	NConds   int           `json:"n_conds,omitempty"` // number of AddRetryCondition
+	NHooks   int           `json:"n_hooks,omitempty"` // number of AddRetryHook
+	HookMode string        `json:"hook_mode,omitempty"` // what OnError does: "" (only logs) | set | clear | panic
+	HookTag  int           `json:"hook_tag,omitempty"`
 	ReqErr   int           `json:"req_err,omitempty"`  // tag recorded in Request.error by a setter
 	OddForm  bool          `json:"odd_form,omitempty"` // SetOrderedFormData with an odd number of strings
 	Checker  int           `json:"checker,omitempty"`  // 0: default; else index into checkers
@@ -104,7 +109,7 @@ func coqOptZ(tag int) string {
 	if tag == 0 {
 		return "None"
 	}
-	return "(Some " + hk.CoqZ(int64(tag)) + ")"
+	return "(Some (" + hk.CoqZ(int64(tag)) + "))"
 }
 
 const eUnmarshal = -1
@@ -112,6 +117,7 @@ const eBadChallenge = -6
 const eOddForm = -7
 const eUnreplayable = -8
 const eUnknown = -9
+const eCanceled = -10
 
 func (p *progSpec) coqBody(b bodySpec) string {
 	um := p.refUnmarshalFails(b)
@@ -184,9 +190,9 @@ func coqWrap(w wrapSpec) string {
 	return "WPass"
 }
 
-func (p *progSpec) coq() string {
+func (p *progSpec) coq(ctxCutAt int) string {
 	var as []string
-	for _, a := range p.Attempts {
+	for ai, a := range p.Attempts {
 		var ud, ws, cli, rq []string
 		for _, u := range a.Ud {
 			ud = append(ud, coqOptZ(u))
@@ -204,16 +210,37 @@ func (p *progSpec) coq() string {
 		if p.OddForm {
 			bi = coqOptZ(eOddForm)
 		}
-		as = append(as, fmt.Sprintf("(mkAttempt %s %s %s %s %s %s %s %s)", hk.CoqList(ud), bi, hk.CoqList(ws),
-			coqOptZ(a.GetBody), p.coqTout(a.T), hk.CoqList(cli), hk.CoqList(rq), hk.CoqBool(a.Cond)))
+		var conds []string
+		for _, c := range a.Conds {
+			conds = append(conds, hk.CoqBool(c))
+		}
+		t := a.T
+		if a.Ctx == "transport" {
+			t = toutSpec{Fail: eCanceled}
+		}
+		as = append(as, fmt.Sprintf("(mkAttempt %s %s %s %s %s %s %s %s %s %s)", hk.CoqList(ud), bi, hk.CoqList(ws),
+			coqOptZ(a.GetBody), p.coqTout(t), hk.CoqList(cli), hk.CoqList(rq), hk.CoqList(conds), hk.CoqBool(ctxCutAt >= 0 && ai >= ctxCutAt), hk.CoqBool(a.SleepCancel)))
 	}
 	entry := map[string]string{"do": "EDo", "send": "ESend", "get": "ESend", "post": "ESend", "mustget": "EMust", "mustpost": "EMust"}[p.Entry]
 	retry := "None"
 	if p.Retry {
-		retry = fmt.Sprintf("(Some (%s, %s))", hk.CoqZ(int64(p.Max)), hk.CoqBool(p.Conds))
+		retry = fmt.Sprintf("(Some (%s, %s))", hk.CoqZ(int64(p.Max)), hk.CoqNat(p.NHooks))
+	}
+	hook := "None"
+	if p.OnError {
+		switch p.HookMode {
+		case "set":
+			hook = "(Some (mkHook (Some " + coqOptZ(p.HookTag) + ") None))"
+		case "clear":
+			hook = "(Some (mkHook (Some None) None))"
+		case "panic":
+			hook = "(Some (mkHook None " + coqOptZ(p.HookTag) + "))"
+		default:
+			hook = "(Some (mkHook None None))"
+		}
 	}
 	cfg := fmt.Sprintf("(mkCfg (mkTargets %s %s %s) %s %s %s %s %s)", hk.CoqBool(p.TResult), hk.CoqBool(p.TError), hk.CoqBool(p.TCommon),
-		hk.CoqBool(p.AutoRead == 0), hk.CoqBool(p.OnError), retry, coqOptZ(p.ReqErr), hk.CoqBool(p.Unreplayable))
+		hk.CoqBool(p.AutoRead == 0), hook, retry, coqOptZ(p.ReqErr), hk.CoqBool(p.Unreplayable))
 	return fmt.Sprintf("(mkProg %s %s %s)", entry, cfg, hk.CoqList(as))
 }
 
@@ -238,11 +265,11 @@ func coqEvent(e logEv) string {
 	case "req":
 		return "EvReq " + hk.CoqNat(e.I)
 	case "cond":
-		return "EvCond"
+		return "EvCond " + hk.CoqNat(e.I)
 	case "hook":
-		return "EvHook"
+		return "EvHook " + hk.CoqNat(e.I)
 	}
-	return "EvHook"
+	return "EvHook 999"
 }
 
 // the log grouped by iteration of do() (Request.RetryAttempt at the time of the call);
@@ -284,6 +311,9 @@ type obsT struct {
 	Log      []logEv `json:"log"`
 	Order    string  `json:"order,omitempty"` // X-Order header as last seen by the transport
 	HookOK   bool    `json:"hook_ok"`         // OnError received the returned response and its Err
+	HookErr  int     `json:"hook_err"`        // class of the error OnError received (0: it did not run)
+	SleepCut bool    `json:"sleep_cut,omitempty"` // the harness cancelled the context during the wait between attempts
+	CtxCutAt int     `json:"ctx_cut_at"`          // attempt in which the stub cancelled the context (-1: it was never reached)
 	Iters    int     `json:"iterations"`      // iterations of do() that ran (final RetryAttempt + 1; 0: do() not entered)
 	TargetOK string  `json:"target_ok,omitempty"`
 }
